@@ -93,6 +93,12 @@ def concatenate(signals, /, axis=0):
         if not all(type(s) is sig_type for s in signals):
             raise TypeError("All signals must have same type!")
 
+    if not isinstance(axis, str):
+        # Negative axes count from the end, as in numpy.
+        axis = operator.index(axis)
+        if axis < 0:
+            axis += signals[0].ndim
+
     ref_sr = signals[0].sample_rate
     if not all(u.isclose(ref_sr, s.sample_rate) for s in signals):
         raise ValueError("Signals must have the same sample_rate!")
